@@ -50,7 +50,7 @@ static void drv_setup(void) {
     nnodes++;
   }
   for (int t = 0; t < t_nthreads; t++) {
-    char nm[8];
+    char nm[16];
     snprintf(nm, sizeof nm, "t%d", t);
     vrt_reg_obj(nm, &res[t], sizeof(tres_t), tf, 1);
   }
